@@ -86,12 +86,12 @@ def shards(tier, seed):
                         "name": f"exh-{nit}-{part}"})
     for i, nit in enumerate(("float", "float", "decimal", "fraction") if q else
                             ("float", "float", "decimal", "decimal", "fraction", "fraction")):
-        out.append({"kind": "comp", "nit": nit, "name": f"comp-{nit}-{i}", "n": 700 if q else 14000})
+        out.append({"kind": "comp", "nit": nit, "name": f"comp-{nit}-{i}", "n": 2500 if q else 30000})
     for i, nit in enumerate(("float", "float", "decimal", "fraction") if q else
                             ("float", "float", "decimal", "decimal", "fraction", "fraction")):
-        out.append({"kind": "qty", "nit": nit, "name": f"qty-{nit}-{i}", "n": 450 if q else 9000})
+        out.append({"kind": "qty", "nit": nit, "name": f"qty-{nit}-{i}", "n": 1500 if q else 20000})
     for i in range(2 if q else 4):
-        out.append({"kind": "cfg", "nit": "float", "name": f"cfg-{i}", "n": 12 if q else 150})
+        out.append({"kind": "cfg", "nit": "float", "name": f"cfg-{i}", "n": 50 if q else 600})
     return out
 
 
@@ -155,6 +155,8 @@ class Names:
             return m.units[name]["symbol"] or name
         if name.startswith("delta_") and name[6:] in m.units:
             return "Δ" + self.short(name[6:])
+        if name not in self.pref and not self.learn_prefixed(name):
+            raise KeyError(name)
         pc, c = self.pref[name]
         return (m.prefixes[pc]["symbol"] or pc) + self.short(c)
 
@@ -232,10 +234,21 @@ def exp_close(read: F, e, fam):
     if read == ex:
         return True
     if fam == "raw":
-        return False
+        # str(exponent): the shortest repr of a float denotes that float
+        return isinstance(e, float) and float(read) == e
     if fam == "Lx":
         return abs(read - ex) <= F(50001, 10 ** 8)
     return abs(read - ex) <= abs(ex) * F(50001, 10 ** 10)
+
+
+def raised_fields(fam, et, e, via, nit):
+    """classifier of an exception escaping a formatting call.  Failures of to_compact and of
+    the dimensional sort key do not depend on the layout family nor on the exponent types."""
+    name = type(e).__name__
+    if via == "to_compact" or (via == "sort_by_dimensionality" and name == "KeyError"):
+        return dict(fmt="any", nit=nit, err=name, exp_type="-", clause="never-raises", via=via)
+    return dict(fmt=fam, nit=nit, err=name, exp_type=et, clause="never-raises",
+                via="format" if via == "sort_by_dimensionality" else via)
 
 
 def items_of(container):
@@ -297,9 +310,13 @@ class Monitor:
             got = self.read(fam, text)
         except self.R.ReadError as e:
             rec.violation("structure", dict(wit, read_error=str(e)), reason="unreadable:" + e.cls,
-                          exp_type=et, **base)
+                          exp_type=et, **dict(base, names="-"))
             return False
-        want = self.expected(items, short, fam)
+        try:
+            want = self.expected(items, short, fam)
+        except KeyError:
+            rec.count("skipped_name_ambiguous_in_model")
+            return None
         rec.observe("families_read", fam)
         g = sorted(got, key=lambda t: (t[0], float(t[1])))
         w = sorted(want, key=lambda t: (t[0], float(t[1])))
@@ -310,7 +327,7 @@ class Monitor:
             rec.violation("structure", dict(wit, read=[(n, str(e)) for n, e in g],
                                             want=[(n, str(e)) for n, e in w]),
                           reason="exponent-or-position" if names_ok else "names",
-                          exp_type=et, **base)
+                          exp_type=et, **(base if not names_ok else dict(base, names="-")))
         return ok
 
     def check_siunitx(self, text, short, items, wit, base, et):
@@ -342,6 +359,14 @@ class Monitor:
             if hit[0] and not N.prefix_split_ok(n, hit[0], hit[1]):
                 split_bad.append((n, hit[0], hit[1]))
         if not ok:
+            # names that could not be matched: is the prefix stripping responsible?
+            left = [n for n, e in want
+                    if not any(p + ("percent" if (u == "%" and short) else u) == n for p, u, _ in got)]
+            if left and all(any(n.startswith(p) for p in N.prefix_names) for n in left):
+                rec.violation("siunitx-prefix-split",
+                              dict(wit, read=[(p, u, str(x)) for p, u, x in got], unmatched=left),
+                              fmt="Lx", nit=self.nit, clause="structure")
+                return False
             rec.violation("structure", dict(wit, read=[(p, u, str(x)) for p, u, x in got],
                                             want=[(n, str(e)) for n, e in want]),
                           reason="terms-differ", exp_type=et, **base)
@@ -364,8 +389,7 @@ class Monitor:
         except Exception as e:  # noqa: BLE001
             rec.violation("raised", dict(ctx, spec=spec, container=repr(items), err=repr(e)[:300],
                                          obj="Unit"),
-                          fmt=fam, nit=self.nit, err=type(e).__name__, exp_type=et,
-                          clause="never-raises", via=self.via)
+                          **raised_fields(fam, et, e, self.via, self.nit))
             return None
         rec.count("fingerprints_compared")
         if (fp_container(u._units), id(u._units)) != before:
@@ -422,8 +446,7 @@ class Monitor:
         except Exception as e:  # noqa: BLE001
             rec.violation("roundtrip-unit", dict(ctx, text=text, container=repr(items),
                                                  err=repr(e)[:300]),
-                          cause=self.diagnose(items, short, "parse-error:" + type(e).__name__),
-                          exp_type=exp_type(items), **base)
+                          **self.rt_fields(base, items, short, "parse-error:" + type(e).__name__))
             return
         if same:
             rec.count("roundtrip_unit_ok")
@@ -431,8 +454,42 @@ class Monitor:
             return
         rec.violation("roundtrip-unit", dict(ctx, text=text, container=repr(items),
                                              back=repr(items_of(back._units))),
-                      cause=self.diagnose(items, short, "different-unit"),
-                      exp_type=exp_type(items), **base)
+                      **self.rt_fields(base, items, short, "different-unit"))
+
+    def rt_fields(self, base, items, short, default):
+        """classifier of a failed round trip: the cause decides which fields are mechanism"""
+        cause = self.diagnose(items, short, default)
+        f = dict(base, cause=cause)
+        try:
+            disp = [self.N.short(n) if short else n for n, _ in items]
+            ident = all(d.isidentifier() for d in disp)
+        except KeyError:
+            ident = True
+        if cause.startswith("symbol-"):
+            # independent of the layout family, of the exponents and of the magnitude
+            f.update(fmt="plain", exp_type="-")
+            f.pop("mag_form", None)
+            f.pop("mag_kind", None)
+        elif default.startswith("parse-error") and f.get("mag_form") == "x10^n":
+            f.update(cause="x10^n-magnitude-not-parseable", names="-", exp_type="-")
+            f.pop("mag_kind", None)
+        elif not ident:
+            # '%', permille, degree signs ...: handled by textual preprocessors of the parser
+            f.update(cause="non-identifier-symbol", fmt="plain", exp_type="-")
+            f.pop("mag_form", None)
+            f.pop("mag_kind", None)
+        else:
+            f.setdefault("exp_type", exp_type(items))
+        return f
+
+    def same_physical(self, a, b):
+        m = self.m_model()
+        try:
+            fa, ra, _ = m.expand({a: 1})
+            fb, rb, _ = m.expand({b: 1})
+            return ra == rb and abs(fa.f() - fb.f()) <= 1e-12 * abs(fb.f())
+        except Exception:  # noqa: BLE001
+            return False
 
     def diagnose(self, items, short, default):
         """Explain a failed round trip with the reference model: does a rendered symbol
@@ -447,7 +504,8 @@ class Monitor:
                 continue
             if s in m.spell:
                 if m.spell[s] != n:
-                    return "symbol-spells-other-unit:" + ("prefixed" if n in N.pref else "canonical")
+                    return ("symbol-spells-other-unit:"
+                            + ("physically-equal" if self.same_physical(n, m.spell[s]) else "different-value"))
                 continue
             rd = m.readings(s)
             if n in N.pref and rd and rd[0] != N.pref[n]:
@@ -524,13 +582,19 @@ class Monitor:
                 target = q.to_compact()
             except Exception:  # noqa: BLE001
                 target, via = None, "to_compact"
+        if target is not None and target is not q:
+            try:
+                self.mag_candidates(target.magnitude, mspec, fam)
+            except Exception:  # noqa: BLE001
+                rec.count("skipped_python_refuses_mspec")     # e.g. to_compact produced a complex number
+                return None
         try:
             text = format(q, spec)
         except Exception as e:  # noqa: BLE001
+            # a failure of to_compact itself does not depend on the layout family
             rec.violation("raised", dict(ctx, spec=spec, container=repr(items0), magnitude=repr(q.magnitude)[:80],
                                          err=repr(e)[:300], obj="Quantity", mag_kind=mk),
-                          fmt=fam, nit=self.nit, err=type(e).__name__, exp_type=et,
-                          clause="never-raises", via=via)
+                          **raised_fields(fam, et, e, via, self.nit))
             return None
         rec.count("fingerprints_compared")
         if (fp_mag(q._magnitude), fp_container(q._units), id(q._units)) != before:
@@ -538,7 +602,7 @@ class Monitor:
                           fmt=fam, nit=self.nit, clause="unchanged", obj="Quantity")
         if target is None:
             rec.count("skipped_compact_unavailable")
-            return text
+            return None
         if compact:
             try:
                 a = target.to(q.units).magnitude
@@ -561,7 +625,7 @@ class Monitor:
         rec.count("quantity_renderings_read")
         rec.observe("mag_kinds", mk)
         rec.observe("mspecs", mspec)
-        if roundtrip and fam in PLAIN and not compact:
+        if roundtrip and fam in PLAIN and not compact and mspec == "":
             self.quantity_roundtrip(q, text, fam, short, items, payload, dict(ctx, spec=spec))
         return text
 
@@ -590,22 +654,25 @@ class Monitor:
                     break
             if not ok:
                 return "bad", ("magnitude-text", dict(ctx, text=text[:300], want=sorted(cands)[:3], mspec=mspec),
-                               dict(fmt=fam, nit=self.nit, clause="magnitude", mag_kind=mk))
+                               dict(fmt=fam, nit=self.nit, clause="magnitude", mag_kind=mk.replace("ndarray0d", "ndarray")))
         elif fam == "H" and isinstance(m, np.ndarray) and m.ndim > 0:
             import re
             mm = re.match(r"^<table><tbody><tr><th>Magnitude</th><td style='text-align:left;'>(.*?)</td></tr>"
                           r"<tr><th>Units</th><td style='text-align:left;'>(.*?)</td></tr></tbody></table>$",
                           text, re.S)
-            if not mm or mm.group(1) not in cands:
+            if mm and mm.group(1) in cands:
+                utext, used = mm.group(2), mm.group(1)
+            elif text in cands:          # no unit text at all (dimensionless with ~): no table
+                utext, used = "", text
+            else:
                 return "bad", ("magnitude-text", dict(ctx, text=text[:300], want=sorted(cands)[:3], mspec=mspec),
-                               dict(fmt=fam, nit=self.nit, clause="magnitude", mag_kind=mk))
-            utext, used = mm.group(2), mm.group(1)
+                               dict(fmt=fam, nit=self.nit, clause="magnitude", mag_kind=mk.replace("ndarray0d", "ndarray")))
         else:
             joiners = ("\\ ",) if fam == "L" else (" ",)
             sp = R.split_magnitude(text, cands, joiners)
             if sp is None:
                 return "bad", ("magnitude-text", dict(ctx, text=text[:300], want=sorted(cands)[:3], mspec=mspec),
-                               dict(fmt=fam, nit=self.nit, clause="magnitude", mag_kind=mk))
+                               dict(fmt=fam, nit=self.nit, clause="magnitude", mag_kind=mk.replace("ndarray0d", "ndarray")))
             used, _, utext = sp
             if utext.startswith("/"):
                 utext = "1 " + utext          # documented: "3 1 / m" is written "3 / m"
@@ -647,14 +714,14 @@ class Monitor:
             same = bool(back == q)
         except Exception as e:  # noqa: BLE001
             rec.violation("roundtrip-quantity", dict(ctx, text=text, q=repr(q), err=repr(e)[:300]),
-                          cause=self.diagnose(items, short, "parse-error:" + type(e).__name__), **base)
+                          **self.rt_fields(base, items, short, "parse-error:" + type(e).__name__))
             return
         if same:
             rec.count("roundtrip_quantity_ok")
             rec.observe("rt_quantity_families", fam + ("~" if short else ""))
             return
         rec.violation("roundtrip-quantity", dict(ctx, text=text, q=repr(q), back=repr(back)),
-                      cause=self.diagnose(items, short, "different-quantity"), **base)
+                      **self.rt_fields(base, items, short, "different-quantity"))
 
 
 # _read_quantity may have recorded a structure violation for a family that is only the first
@@ -977,8 +1044,7 @@ def other_forms(rec, mon, ureg, u, items, nit):
         mon.check_unit_text(s, "D", False, items, {"workload": "str(Unit)"}, "Unit")
     except Exception as e:  # noqa: BLE001
         rec.violation("raised", {"what": "str(Unit)", "container": repr(items), "err": repr(e)[:300]},
-                      fmt="D", nit=nit, err=type(e).__name__, exp_type=et, clause="never-raises",
-                      via="str")
+                      **raised_fields("D", et, e, mon.via, nit))
     # repr(u) = <Unit('...')>
     try:
         r = repr(u)
@@ -990,8 +1056,7 @@ def other_forms(rec, mon, ureg, u, items, nit):
                           nit=nit, clause="structure", exp_type=et)
     except Exception as e:  # noqa: BLE001
         rec.violation("raised", {"what": "repr(Unit)", "container": repr(items), "err": repr(e)[:300]},
-                      fmt="D", nit=nit, err=type(e).__name__, exp_type=et, clause="never-raises",
-                      via="repr")
+                      **raised_fields("D", et, e, mon.via, nit))
     # the bare container
     c = u._units
     for sp in ("", "D", "C", "P", "H", "L", "raw"):
@@ -1001,8 +1066,7 @@ def other_forms(rec, mon, ureg, u, items, nit):
         except Exception as e:  # noqa: BLE001
             rec.violation("raised", {"what": "format(UnitsContainer)", "spec": sp, "container": repr(items),
                                      "err": repr(e)[:300]},
-                          fmt=family(sp), nit=nit, err=type(e).__name__, exp_type=et,
-                          clause="never-raises", via="container")
+                          **raised_fields(family(sp), et, e, mon.via, nit))
             continue
         rec.count("fingerprints_compared")
         if fp_container(c) != before:
@@ -1067,9 +1131,11 @@ def run_quantities(spec, rec, rng, ureg, mon, names, canon, mult):
                 parts = [ms, fam, "~" if tilde else ""]
             s = "".join(parts)
             rec.case(("qty", nit, s, mk, shape_key(items)))
-            mon.quantity_case(q, s, {"workload": "quantity", "channel": ch}, roundtrip=(ms == ""))
+            mon.quantity_case(q, s, {"workload": "quantity", "channel": ch})
         # '#': compact first (multiplicative units, scalar finite magnitudes)
-        if all(names.multiplicative(n) for n, _ in items) and (not foreign or mk == "ndarray"):
+        native_exps = all(isinstance(e, mon.native) for _, e in items)
+        if (all(names.multiplicative(n) for n, _ in items) and native_exps
+                and (not foreign or mk == "ndarray")):
             for _ in range(2):
                 ms = rng.choice(MSPECS)
                 s = rng.choice(("#{m}~{f}", "{m}#{f}", "~#{m}{f}", "{m}{f}#~")).format(
@@ -1086,8 +1152,7 @@ def run_quantities(spec, rec, rng, ureg, mon, names, canon, mult):
                 mon.check_unit_text(tail[1][:-3], "D", False, items, {"workload": "repr(Quantity)"}, "Quantity")
         except Exception as e:  # noqa: BLE001
             rec.violation("raised", {"what": "repr(Quantity)", "container": repr(items), "err": repr(e)[:300]},
-                          fmt="D", nit=nit, err=type(e).__name__, exp_type=exp_type(items),
-                          clause="never-raises", via="repr")
+                          **raised_fields("D", exp_type(items), e, mon.via, nit))
         if i % 150 == 0:
             rec.sample({"quantity": safe(lambda: repr(q)), "~P": safe(lambda: format(q, "~P")),
                         "L": safe(lambda: format(q, ".2eL"))})
@@ -1118,8 +1183,7 @@ def run_measurements(spec, rec, rng, ureg, mon, names, g):
             except Exception as e:  # noqa: BLE001
                 rec.violation("raised", {"what": "format(Measurement)", "spec": sp, "container": repr(items),
                                          "err": repr(e)[:300]},
-                              fmt=fam, nit=nit, err=type(e).__name__, exp_type=exp_type(items),
-                              clause="never-raises", via="measurement")
+                              **raised_fields(fam, exp_type(items), e, mon.via, nit))
                 continue
             rec.count("fingerprints_compared")
             if (repr(ms.magnitude), fp_container(ms._units)) != before:
@@ -1133,6 +1197,12 @@ def run_measurements(spec, rec, rng, ureg, mon, names, g):
                 sep = "\\ " if fam == "L" else " "
                 idx = [j for j in range(len(text)) if text.startswith(sep, j)]
                 cand = [text[j + len(sep):] for j in idx]
+            if fam == "Lx" and len(cand) == 1:
+                # one candidate only: let the structure oracle report by itself
+                if mon.check_unit_text(cand[0], fam, short, items, {"workload": "measurement", "text": text},
+                                       "Measurement") is not False:
+                    rec.count("measurement_renderings_read")
+                continue
             for c in cand:
                 scratch = _Scratch(rec)
                 mon.rec = scratch
@@ -1165,7 +1235,8 @@ def run_configs(spec, rec, rng, ureg0, mon0, names, canon, mult):
     nit = "float"
     regs = {}
     for sfd in (None, True, False):
-        regs[sfd] = pintload.registry(separate_format_defaults=sfd)
+        regs[sfd] = pintload.registry()
+        regs[sfd].separate_format_defaults = sfd     # (the constructor keyword is not accepted)
     for rnd in range(spec["n"]):
         sfd = rng.choice((None, True, True, False))
         ureg = regs[sfd]
@@ -1192,8 +1263,7 @@ def run_configs(spec, rec, rng, ureg0, mon0, names, canon, mult):
                     text = str(u) if how == "str" else format(u, "")
                 except Exception as e:  # noqa: BLE001
                     rec.violation("raised", dict(cfg, what=how + "(Unit)", container=repr(items), err=repr(e)[:300]),
-                                  fmt=dfam, nit=nit, err=type(e).__name__, exp_type=et, clause="never-raises",
-                                  via=mon.via)
+                                  **raised_fields(dfam, et, e, mon.via, nit))
                     continue
                 body = text
                 if dfam == "Lx":
@@ -1215,8 +1285,7 @@ def run_configs(spec, rec, rng, ureg0, mon0, names, canon, mult):
                 except Exception as e:  # noqa: BLE001
                     rec.violation("raised", dict(cfg, what="format(Unit)", spec=sp, container=repr(items),
                                                  err=repr(e)[:300]),
-                                  fmt=family(sp), nit=nit, err=type(e).__name__, exp_type=et,
-                                  clause="never-raises", via=mon.via)
+                                  **raised_fields(family(sp), et, e, mon.via, nit))
             # ---- quantities
             q = ureg.Quantity(native_mag(rng, nit), u)
             for sp in partial:
